@@ -39,6 +39,23 @@ pub fn apply(lib: &Library) -> SemanticResult {
     Ok(())
 }
 
+/// Returns true if `a` is strictly less than `b`.
+///
+/// The limits are compared as sign and magnitude because the magnitude
+/// of a literal can exceed what a signed 128-bit integer represents.
+fn is_less(a: &SignedInteger, b: &SignedInteger) -> bool {
+    let (a_mag, b_mag) = (a.value.value, b.value.value);
+    // Negative zero is zero
+    let a_neg = a.is_neg && a_mag != 0;
+    let b_neg = b.is_neg && b_mag != 0;
+    match (a_neg, b_neg) {
+        (false, false) => a_mag < b_mag,
+        (true, true) => a_mag > b_mag,
+        (true, false) => true,
+        (false, true) => false,
+    }
+}
+
 struct RuleDeclSubrangeLimits {
     diagnostics: Vec<Diagnostic>,
 }
@@ -47,10 +64,7 @@ impl Visitor<Diagnostic> for RuleDeclSubrangeLimits {
     type Value = ();
 
     fn visit_subrange(&mut self, node: &Subrange) -> Result<(), Diagnostic> {
-        let minimum: i128 = node.start.clone().try_into().expect("Value in range i128");
-        let maximum: i128 = node.end.clone().try_into().expect("Value in range i128");
-
-        if minimum >= maximum {
+        if !is_less(&node.start, &node.end) {
             self.diagnostics.push(
                 Diagnostic::problem(
                     Problem::SubrangeMinStrictlyLessMax,
